@@ -366,25 +366,35 @@ def _sgx(run):
     g = v.g
     texts = v.fact_texts(g.exit)
     done = v.completed(g.exit)
-    root = "get_root_of_trust(options.root_authority or DEFAULT_ROOT_AUTHORITY)"
-    res = f"HSMCertificate.from_jsonfile(options.attestation_certificate_file_path).validate_and_get_values({root})"
-    msg = f"bytes.fromhex({res}['quote'][1]['message'])"
-    wants = [
-        ("root-loaded", [root], "the root of trust was never loaded"),
-        ("root-self-valid", [f"{root}.is_valid({root})"], "the root of trust was not checked to be self-signed/valid"),
-        ("certificate-loaded", ["HSMCertificate.from_jsonfile(options.attestation_certificate_file_path)"], "the certificate was never loaded"),
-        ("quote-present", [f"'quote' in {res}"], "the certificate has no `quote` target"),
-        ("quote-valid", [f"{res}['quote'][0]"], "the quote chain did not validate"),
-        ("header", [f"PowHsmAttestationMessage.is_header({msg})"], "the custom message lacks the powHSM header"),
-        ("parsed", [f"PowHsmAttestationMessage({msg})"], "the powHSM message was not parsed (exact-length check)"),
-        ("hash", [f"PowHsmAttestationMessage({msg}).public_keys_hash == compute_pubkeys_hash(load_pubkeys(options.pubkeys_file_path))"],
-         "the reported keys hash differs from the hash of the operator's keys"),
-    ]
-    for key, alts, m in wants:
-        alts = [_strip(a) for a in alts]
-        ok = any(a in texts or a in done for a in alts)
+    # the root of trust is the operator's choice or the default (`A or B` is analysed as its two cases, normal form N6)
+    roots = ["get_root_of_trust(options.root_authority)", "get_root_of_trust(DEFAULT_ROOT_AUTHORITY)"]
+
+    def forms(root):
+        res = f"HSMCertificate.from_jsonfile(options.attestation_certificate_file_path).validate_and_get_values({root})"
+        msg = f"bytes.fromhex({res}['quote'][1]['message'])"
+        return res, msg, [
+            ("root-loaded", root, "the root of trust was never loaded"),
+            ("root-self-valid", f"{root}.is_valid({root})", "the root of trust was not checked to be self-signed/valid"),
+            ("certificate-loaded", "HSMCertificate.from_jsonfile(options.attestation_certificate_file_path)", "the certificate was never loaded"),
+            ("quote-present", f"'quote' in {res}", "the certificate has no `quote` target"),
+            ("quote-valid", f"{res}['quote'][0]", "the quote chain did not validate"),
+            ("header", f"PowHsmAttestationMessage.is_header({msg})", "the custom message lacks the powHSM header"),
+            ("parsed", f"PowHsmAttestationMessage({msg})", "the powHSM message was not parsed (exact-length check)"),
+            ("hash", f"PowHsmAttestationMessage({msg}).public_keys_hash == compute_pubkeys_hash(load_pubkeys(options.pubkeys_file_path))",
+             "the reported keys hash differs from the hash of the operator's keys"),
+        ]
+    per_key = {}
+    for root in roots:
+        res, msg, wants = forms(root)
+        for key, a, m in wants:
+            a = _strip(a)
+            per_key.setdefault(key, []).append((a in texts or a in done, a, m))
+    for key, lst in per_key.items():
+        ok = all(x[0] for x in lst)
+        miss = next((x for x in lst if not x[0]), lst[0])
         run.check("R1s", ok, f"sgx verify: {key}", key=f"{fn.qualname}|{key}", where=fn.loc(),
-                  message=f"the SGX verify command can finish without error although {m} (no dominating `{alts[0][:140]}`)")
+                  message=f"the SGX verify command can finish without error although {miss[2]} (no dominating `{miss[1][:140]}`)")
+    res = None
     n = _admin_error_only(run, v, "R1s")
     run.floor("R1s", "dominating checks of the SGX verify exit", n, 5)
     heads = find_calls(A, fn, "head")
@@ -395,7 +405,7 @@ def _sgx(run):
               message=f"unexpected quote fields printed: {sorted(set(sq))}")
     for hn in g.nodes_of(heads[-1]):
         got = v.exp(ast.Name(id="sgx_quote", ctx=ast.Load()), hn)
-        run.check("R4", got == {_strip(f"{res}['quote'][1]['sgx_quote']")}, "sgx_quote is the valid verdict's parsed quote",
+        run.check("R4", got == {_strip(f"{forms(r_)[0]}['quote'][1]['sgx_quote']") for r_ in roots}, "sgx_quote is the valid verdict's parsed quote",
                   key=f"{fn.qualname}|printed|sgx_quote-source", where=fn.loc(), message=f"sgx_quote is {sorted(got)[:1]}")
 
 
